@@ -180,10 +180,9 @@ _CUR_BODY = [""]   # the descriptor text being rendered (set by impl()): r_ms lo
 
 
 def r_ms(node) -> str:
-    """a miniscript is in C15's model when every key is a raw public key WRITTEN as contiguous hex (C15's key
-    grammar).  btclib also reads a hex key with spaces inside it (bytes.fromhex skips them: the whitespace
-    leniency listed in ASSUMPTIONS); such a text is outside C15's reader and is rendered `unsupported`."""
-    body = _CUR_BODY[0].lower()
+    """a miniscript is in C15's model when every key is a raw public key written in hex (C15's key grammar, which
+    since its commit f3ce89e includes the spaces bytes.fromhex skips between bytes); WIF / extended keys are not."""
+    body = _CUR_BODY[0].lower().replace(" ", "")
     for k in node.key_expressions:
         if k.participants or k.pub_key is None or k.origin is not None:
             raise Unsupported
@@ -264,6 +263,7 @@ def atoms_for(text: str) -> str:
         try:
             sec = pub_keyinfo_from_key(r)[0]
             out.append(f"w:{T(r)}:{hx(sec)}")
+            add_point(sec)      # hex with spaces inside reaches here: the point it names is a point
         except (TypeError, ValueError):
             pass
     if body.startswith("addr(") and body.endswith(")"):
@@ -285,7 +285,7 @@ def _scan_tokens(rows_tok):
     return [[] if r == "-" else [int(x) for x in r.split(",")] for r in rows_tok.split(";")]
 
 
-_WALLET_CTX_OPS = {"w.bip32", "w.bip32.pos", "w.key", "w.script", "w.script.pos", "w.desc.pos"}
+_WALLET_CTX_OPS = {"scan.posE", "w.bip32", "w.bip32.pos", "w.key", "w.script", "w.script.pos", "w.desc.pos"}
 _SCAN_CTX: dict = {}   # op line -> precomputed implementation answer (scan ops are answered from real objects)
 
 
@@ -456,6 +456,67 @@ def _aff_add(P, Q):
         lam = (Q[1] - P[1]) * pow(Q[0] - P[0], -1, p) % p
     x = (lam * lam - P[0] - Q[0]) % p
     return (x, (lam * (P[0] - x) - P[1]) % p)
+
+
+def _aff_mult(k: int, P):
+    """double-and-add over `_aff_add` (None is the point at infinity)."""
+    acc, add = None, P
+    while k:
+        if k & 1:
+            acc = add if acc is None else _aff_add(acc, add)
+        add = _aff_add(add, add)
+        k >>= 1
+    return acc
+
+
+def _point_of_sec(sec: bytes):
+    x = int.from_bytes(sec[1:33], "big")
+    P = lift_x(x)
+    return P if (sec[0] == 2) else (P[0], secp256k1.p - P[1])
+
+
+def hand_key_agg(pks: list[bytes]) -> bytes:
+    """BIP327 KeyAgg written from the BIP: coefficient 1 for the second distinct key, the tagged hash for every
+    other one (a single key included), the sum of the coefficient multiples; compressed."""
+    L = tagged("KeyAgg list", b"".join(pks))
+    second = next((pk for pk in pks if pk != pks[0]), b"\x00" * 33)
+    Q = None
+    for pk in pks:
+        a = 1 if pk == second else int.from_bytes(tagged("KeyAgg coefficient", L + pk), "big") % secp256k1.n
+        Tm = _aff_mult(a, _point_of_sec(pk))
+        Q = Tm if Q is None else _aff_add(Q, Tm)
+    return bytes([2 + (Q[1] & 1)]) + Q[0].to_bytes(32, "big")
+
+
+BIP328_CHAIN = bytes.fromhex("868087ca02a6f974c4598924c36b57762d32cb45717167e300622c7167e38965")
+
+
+class MusigSpec:
+    """a musig() key expression as the generator knows it: participants, aggregate path, aggregate wildcard."""
+
+    kind = "musig"
+    private = False
+    needs_prv = False
+    origin = None
+    xonly = False
+
+    def __init__(self, parts, path=(), wildcard=None, network="mainnet"):
+        self.parts, self.path, self.wildcard, self.network = parts, tuple(path), wildcard, network
+        self.text = "musig(" + ",".join(p.text for p in parts) + ")" + "".join(f"/{i}" for i in path) + \
+            ("/*" if wildcard is not None else "")
+
+    @property
+    def ranged(self):
+        return self.wildcard is not None or any(p.ranged for p in self.parts)
+
+    def derive(self, index: int) -> bytes:
+        agg = hand_key_agg(sorted(p.derive(index) for p in self.parts))   # BIP390: KeySort after derivation
+        path = list(self.path) + ([index] if self.wildcard is not None else [])
+        if not path:
+            return agg
+        synth = BIP32KeyData(version=NETWORKS[self.network].bip32_pub, depth=0, parent_fingerprint=bytes(4), index=0,
+                             chain_code=BIP328_CHAIN, key=agg)
+        return BIP32KeyData.b58decode(bip32.derive(synth.b58encode(), path)).key
 
 
 def op_n(n: int):
@@ -938,6 +999,8 @@ def _build_wallet(w):
         return BIP32KeyWallet(w["xkey"], w["path"], w.get("script_type"))
     if kind == "desc":
         return DescriptorWallet.from_descriptor(w["text"], w["network"], dict(w.get("prv") or {}) or None)
+    if kind == "descs":
+        return DescriptorWallet([D.parse(t_, w["network"]) for t_ in w["texts"]], dict(w.get("prv") or {}) or None)
     if kind == "account":
         return DescriptorWallet.from_account(w["xkey"], w["path"], w.get("fp"), w.get("script_type"))
     if kind == "script":
@@ -1016,6 +1079,26 @@ def _o_wallet(w):
     return True, f"{len(w['ask'])} positions asked"
 
 
+def _o_wallet_raise(w):
+    """`position_of` never answers wrongly because part of the range cannot be derived: a match that comes before
+    the underivable position is answered with its position, and a query whose scan has to cross the underivable
+    position is refused with BTClibValueError — never 'not mine', never another position."""
+    wal = _build_wallet(w)
+    last = w["last"]
+    got = wal.position_of(bytes.fromhex(w["own"]), last)
+    if got != tuple(w["own_pos"]):
+        return False, f"position_of(own script) = {got}, expected {tuple(w['own_pos'])}"
+    for f in w["raises"]:
+        try:
+            r = wal.position_of(bytes.fromhex(f), last)
+        except BTClibValueError:
+            continue
+        except Exception as e:  # noqa: BLE001
+            return False, f"left through {type(e).__name__}"
+        return False, f"answered {r} although the scan had to cross a position the wallet cannot derive"
+    return True, "answered before / refused at the underivable position"
+
+
 def _o_wallet_agree(w):
     """the BIP32 key wallet and the descriptor wallet of the same account hand out the same scripts and addresses,
     and those are the hand-derived key's own encoding."""
@@ -1045,6 +1128,18 @@ def _o_opaque_roundtrip(w):
     return True, "round trip"
 
 
+def _o_int_digits(w):
+    """a descriptor holding a long run of decimal digits is read or refused with BTClibValueError — never left
+    through int()'s own ValueError (CPython's 4300-digit limit)."""
+    try:
+        D.parse(w["text"])
+    except BTClibValueError:
+        return True, "refused"
+    except Exception as e:  # noqa: BLE001
+        return False, f"left through {type(e).__name__}: {str(e)[:80]}"
+    return True, "read"
+
+
 def _o_brackets(w):
     """a descriptor text whose bracket kinds do not match (`)` closed by `}` or the reverse) is outside the
     grammar: parse refuses it, checksummed by add_checksum or not."""
@@ -1057,8 +1152,8 @@ def _o_brackets(w):
 
 ORACLES = {
     "derive": _o_derive, "corrupt": _o_corrupt, "roundtrip": _o_roundtrip, "atindex": _o_atindex,
-    "multipath": _o_multipath, "index_of": _o_index_of, "wallet": _o_wallet, "wallet.agree": _o_wallet_agree,
-    "opaque.roundtrip": _o_opaque_roundtrip, "brackets": _o_brackets,
+    "multipath": _o_multipath, "index_of": _o_index_of, "wallet": _o_wallet, "wallet.agree": _o_wallet_agree, "wallet.raise": _o_wallet_raise,
+    "opaque.roundtrip": _o_opaque_roundtrip, "brackets": _o_brackets, "int_digits": _o_int_digits,
 }
 
 
@@ -1177,6 +1272,18 @@ def position_lines(ctx):
               f"tr({xonly},{{pk({xonly}),pk({xonly}),pk({xonly})}})", f"tr({xonly},{{}})", f"tr({xonly},{{)",
               "raw()", "raw(zz)", "raw(5)", "raw(51 52)", "raw( 5152 )", "raw(5 1)", "addr()", "addr(x)", "pk", "pk(", "(",
               ")", "", "pk)(", f"pk({comp})x", f"xpk({comp})", f"PK({comp})"]
+    # digit runs: a threshold is at most ten digits; int() has a 4300-digit limit of its own that nothing may reach
+    for n in (9, 10, 11, 4300, 4301, 10 ** 4):
+        for run in ("9" * n, "0" * (n - 1) + "1"):
+            lines += [f"multi({run},{comp})", f"wsh(sortedmulti({run},{comp},{comp}))", f"tr({xonly},multi_a({run},{xonly}))",
+                      f"tr({xonly},{{pk({xonly}),sortedmulti_a({run},{xonly})}})",
+                      f"wpkh({g.roots[0][1]}/{run}/*)", f"wpkh({g.roots[0][1]}/{run}h)", f"pkh([aabbccdd/{run}']{comp})"]
+    for t_ in lines[-84:]:
+        ctx.check("int_digits", {"text": t_}, key="parse.int_max_str_digits")
+    for n in (11, 4300, 4301, 10 ** 4):
+        for t_ in (f"wsh(and_v(v:pk({comp}),older({'1' * n})))", f"wsh(and_v(v:pk({comp}),after({'0' * n}5)))",
+                   f"wsh(thresh({'2' * n},pk({comp}),s:pk({comp})))", f"tr({xonly},and_v(v:pk({xonly}),older({'7' * n})))"):
+            ctx.check("int_digits", {"text": t_}, key="parse.int_max_str_digits")
     deep = f"pk({xonly})"
     for _ in range(130):
         deep = "{" + deep + f",pk({xonly})" + "}"
@@ -1497,6 +1604,20 @@ def wallet_batch(ctx):
             own = kw_.script_pub_key(1, last).script
             for q in (own, kw_.script_pub_key(0, 0).script, bytes.fromhex(foreign[0])):
                 _ctx_line(wlines, f"w.bip32.pos {stype} {xt} {last} {hx(q)}", lambda q=q: kw_.position_of(q, last))
+            for b, i in [(0, H - 1), (0, H), (H, 0), (1, 0xFFFF)]:
+                _ctx_line(wlines, f"w.bip32 {stype} {xt} {b} {i}", lambda b=b, i=i: kw_.script_pub_key(b, i).script)
+            if purpose == 84:
+                # last_index past what an account wallet derives: a match found first is answered ...
+                q3 = kw_.script_pub_key(0, 3).script
+                _ctx_line(wlines, f"w.bip32.pos {stype} {xt} {0x10000} {hx(q3)}", lambda: kw_.position_of(q3, 0x10000))
+                ctx.check("wallet.raise", {"kind": "bip32", "xkey": xkey, "path": path, "last": 0x10000,
+                                           "own": q3.hex(), "own_pos": [0, 3], "raises": []})
+                if ctx.tier == "thorough" and net == "mainnet":
+                    # ... and the scan of branch 0 runs into index 65536 before it reaches (1, 0): raise
+                    q10 = kw_.script_pub_key(1, 0).script
+                    _ctx_line(wlines, f"w.bip32.pos {stype} {xt} {0x10000} {hx(q10)}", lambda: kw_.position_of(q10, 0x10000))
+                    ctx.check("wallet.raise", {"kind": "bip32", "xkey": xkey, "path": path, "last": 0x10000,
+                                               "own": q3.hex(), "own_pos": [0, 3], "raises": [q10.hex()]})
             w2 = {"kind": "account", "xkey": xkey, "path": path, "fp": fp, "last": last, "ask": ask,
                   "foreign": foreign, "beyond": True}
             ctx.check("wallet", w2)
@@ -1640,6 +1761,26 @@ def wallet_batch(ctx):
             _SCAN_CTX[ln] = "ok None" if got is None else f"ok {got[0]} {got[1]}"
             lines.append(ln)
     stream(ctx, "scan.pos.table", lines)
+
+    class HoleWallet(TableWallet):
+        """a position the table marks None cannot be derived: the BTClibValueError a real wallet raises there."""
+
+        def _script_pub_key(self, branch, index):
+            if index >= len(self.table[branch]) or self.table[branch][index] is None:
+                raise BTClibValueError(f"invalid index: {index}")
+            return super()._script_pub_key(branch, index)
+
+    lines = []
+    for _ in range(ctx.n(60, 600)):
+        nb, ln = rng.choice([1, 2, 3]), rng.choice([1, 2, 4])
+        last = rng.choice([0, ln - 1, ln, ln + 3])
+        table = [[(None if rng.random() < 0.2 else rng.choice(pool[:4])) for _ in range(ln)] for _ in range(nb)]
+        wal = HoleWallet(table)
+        ids = {p_: i + 1 for i, p_ in enumerate(pool)}
+        tok = "|".join(",".join("x" if s_ is None else str(ids[s_]) for s_ in row) for row in table)
+        for q in pool:
+            _ctx_line(lines, f"scan.posE {last} {ids[q]} {tok}", lambda q=q: wal.position_of(q, last))
+    stream(ctx, "scan.posE", lines)
     lines = []
     for _ in range(ctx.n(10, 80)):
         spec = g.script_expr("top", True)
@@ -1672,6 +1813,55 @@ def wallet_batch(ctx):
             _SCAN_CTX[ln] = "ok None" if got is None else f"ok {wal.branches.index(got[0])} {got[1]}"
             lines.append(ln)
     stream(ctx, "scan.dpos.repeated", lines)
+
+    # descriptor wallets of mixed script types, and chains that cannot be derived without the private keys
+    for net in NETS[:2]:
+        g = Gen(rng, net)
+        for _ in range(ctx.n(8, 60)):
+            def chain(kind, hardened=False):
+                k = g.xkey(allow_hardened=False, canonical=True, ranged=True)
+                if hardened:   # `/*h` with the xpub written: underivable without prv_keys
+                    k = KeySpec("x", k.xpub + "/*h", xprv=k.xprv, xpub=k.xpub, path=[], wildcard=H)
+                k2 = g.xkey(allow_hardened=False, canonical=True, ranged=True)
+                return {"wpkh": ("wpkh", k), "tr": ("tr", k, None), "pkh": ("pkh", k), "sh-wpkh": ("sh", ("wpkh", k)),
+                        "wsh-multi": ("wsh", ("multi", 1, [k, k2])), "rawtr": ("rawtr", k), "pk": ("pk", k)}[kind]
+            kinds = rng.sample(["wpkh", "tr", "pkh", "sh-wpkh", "wsh-multi", "rawtr", "pk"], rng.choice([2, 3]))
+            specs_ = [chain(k_) for k_ in kinds]
+            texts_ = [spec_text(sp) for sp in specs_]
+            last = rng.choice([1, 3])
+            ask = [(b, i) for b in range(len(texts_)) for i in (0, last)]
+            ctx.check("wallet", {"kind": "descs", "texts": texts_, "network": net, "last": last, "ask": ask,
+                                 "foreign": [serialize(["OP_1", common.rand_bytes(rng, 32)]).hex()], "beyond": True},
+                      key="wallet.descriptor.mixed_types")
+            ctx.count("wallet", "descriptor(mixed types)")
+            at = atoms_for(",".join(texts_))
+            wal = DescriptorWallet([D.parse(t_, net) for t_ in texts_])
+            for b, i in ask[-2:]:
+                q = wal.script_pub_key(b, i).script
+                _ctx_line(wlines, f"w.desc.pos {at} _ {net} {last} {hx(q)} " + ";".join(T(t_) for t_ in texts_),
+                          lambda q=q: wal.position_of(q, last))
+            # a later chain that needs private keys nobody gave: found-before is answered, anything else raises
+            hard = chain(rng.choice(["wpkh", "tr"]), hardened=True)
+            texts_h = [texts_[0], spec_text(hard)]
+            try:
+                walh = DescriptorWallet([D.parse(t_, net) for t_ in texts_h])
+            except BTClibValueError:
+                continue
+            own = walh.script_pub_key(0, last).script
+            foreign = common.rand_bytes(rng, 23)
+            ctx.check("wallet.raise", {"kind": "descs", "texts": texts_h, "network": net, "last": last,
+                                       "own": own.hex(), "own_pos": [0, last], "raises": [foreign.hex()]})
+            ath = atoms_for(",".join(texts_h))
+            for q in (own, foreign):
+                _ctx_line(wlines, f"w.desc.pos {ath} _ {net} {last} {hx(q)} " + ";".join(T(t_) for t_ in texts_h),
+                          lambda q=q: walh.position_of(q, last))
+            prvh = {hard[1].xpub: hard[1].xprv}
+            walp = DescriptorWallet([D.parse(t_, net) for t_ in texts_h], prvh)
+            ptok = ";".join(f"{T(a)}={T(b)}" for a, b in prvh.items())
+            qh = walp.script_pub_key(1, last).script
+            for q in (qh, foreign):
+                _ctx_line(wlines, f"w.desc.pos {ath} {ptok} {net} {last} {hx(q)} " + ";".join(T(t_) for t_ in texts_h),
+                          lambda q=q: walp.position_of(q, last))
 
     # descriptor wallets end to end: parse + derive + scan, all in the model
     g = Gen(rng, "mainnet")
@@ -1800,9 +1990,47 @@ def musig_lines(ctx):
     return lines
 
 
+def musig_derive_batch(ctx):
+    """tr / rawtr / pk(musig()) leaves with 1, 2, 3 participants and duplicates: the scripts are those of the
+    BIP327 aggregate (hand KeyAgg above) — a single participant is NOT its own aggregate."""
+    rng = ctx.rng
+    for net in ["mainnet", "testnet"]:
+        g = Gen(rng, net)
+        for _ in range(ctx.n(7, 60)):
+            n = rng.choice([1, 1, 2, 3])
+            agg_derives = rng.random() < 0.4
+            parts = []
+            for _ in range(n):
+                if agg_derives:
+                    parts.append(g.xkey(allow_hardened=False, canonical=True, ranged=False))
+                elif rng.random() < 0.5:
+                    parts.append(g.xkey(allow_hardened=False, canonical=True, ranged=rng.random() < 0.6))
+                else:
+                    parts.append(g.fixed_key(xonly_ok=False, uncompressed_ok=False, canonical=True))
+            if n > 1 and rng.random() < 0.3:
+                parts[-1] = parts[0]                    # a duplicate participant
+            if agg_derives:
+                m = MusigSpec(parts, [rng.randrange(50) for _ in range(rng.choice([0, 1, 2]))],
+                              0 if rng.random() < 0.7 else None, net)
+                if not m.path and m.wildcard is None:
+                    m = MusigSpec(parts, [3], None, net)
+            else:
+                m = MusigSpec(parts, network=net)
+            shape = rng.choice(["tr", "rawtr", "leaf", "multi_a"])
+            other = g.fixed_key(xonly_ok=True, uncompressed_ok=False, canonical=True)
+            spec = {"tr": ("tr", m, None), "rawtr": ("rawtr", m), "leaf": ("tr", other, ("pk", m)),
+                    "multi_a": ("tr", other, ("branch", ("multi_a", 1, [m, other]), ("pk", m)))}[shape]
+            text = spec_text(spec)
+            ctx.count("musig", f"{n}-participants")
+            for i in ([0, 1, H - 1] if _ranged(spec) else [0]):
+                ctx.check("derive", {"text": text, "network": net, "prv": None, "index": i,
+                                     "expect": _expected(spec, i, net)}, key="derive.musig")
+
+
 def opaque_batch(ctx):
     rng = ctx.rng
     stream(ctx, "musig", musig_lines(ctx))
+    musig_derive_batch(ctx)
     g = Gen(rng, "mainnet")
     xpubs = [bip32.xpub_from_xprv(bip32.derive(r[0], f"m/86h/0h/{i}h")) for i, r in enumerate(g.roots)]
     for tmpl in _MS + _MUSIG:
